@@ -123,7 +123,7 @@ func normalizeNewHelpers(dir string, env []string, base map[string][]byte) map[s
 	}
 	changed := false
 	for round := 0; round < 4; round++ {
-		n, next := inlineRound(abs, env, cur, fresh)
+		n, next := inlineRound(abs, env, cur, fresh, round*1000)
 		if n == 0 {
 			break
 		}
@@ -151,7 +151,7 @@ type edit struct {
 }
 
 // inlineRound inlines the eligible leaf helpers (those that call no other new function) once.
-func inlineRound(abs string, env []string, overlay map[string][]byte, fresh []string) (int, map[string][]byte) {
+func inlineRound(abs string, env []string, overlay map[string][]byte, fresh []string, counterBase int) (int, map[string][]byte) {
 	cfg := &packages.Config{
 		Mode:    packages.NeedName | packages.NeedFiles | packages.NeedCompiledGoFiles | packages.NeedImports | packages.NeedDeps | packages.NeedTypes | packages.NeedSyntax | packages.NeedTypesInfo | packages.NeedTypesSizes,
 		Dir:     abs,
@@ -175,7 +175,7 @@ func inlineRound(abs string, env []string, overlay map[string][]byte, fresh []st
 		return b
 	}
 	total := 0
-	counter := 0
+	counter := counterBase // result temporaries and labels are unique across rounds
 	for _, pk := range pkgs {
 		if len(pk.Errors) > 0 || pk.TypesInfo == nil || !strings.HasPrefix(pk.PkgPath, modPath) {
 			continue
@@ -457,6 +457,10 @@ func inlineSite(fset *token.FileSet, info *types.Info, file *ast.File, src []byt
 	if stmt == nil || si == 0 {
 		return edit{}, "no enclosing statement"
 	}
+	// `if x := f(); cond {`: the statement to rewrite is the if
+	if is, ok := found[si-1].(*ast.IfStmt); ok && is.Init == stmt && si >= 2 {
+		stmt, si = is, si-1
+	}
 	switch parent := found[si-1].(type) {
 	case *ast.BlockStmt, *ast.CaseClause, *ast.CommClause:
 		_ = parent
@@ -496,6 +500,36 @@ func inlineSite(fset *token.FileSet, info *types.Info, file *ast.File, src []byt
 			okCtx = false // the init statement would have to run first: not handled
 		}
 	}
+	// general position: a single-valued call that is the first thing with an effect the statement evaluates
+	// (so that hoisting it in front of the statement keeps the order), not under the right operand of && / ||
+	generalPos := false
+	if !okCtx {
+		var roots []ast.Node
+		switch s := stmt.(type) {
+		case *ast.ExprStmt:
+			roots = []ast.Node{s.X}
+		case *ast.AssignStmt:
+			for _, e := range s.Lhs {
+				roots = append(roots, e)
+			}
+			for _, e := range s.Rhs {
+				roots = append(roots, e)
+			}
+		case *ast.ReturnStmt:
+			for _, e := range s.Results {
+				roots = append(roots, e)
+			}
+		case *ast.SendStmt:
+			roots = []ast.Node{s.Chan, s.Value}
+		case *ast.IfStmt:
+			if s.Init == nil && containsNode(s.Cond, call) {
+				roots = []ast.Node{s.Cond}
+			}
+		}
+		if len(roots) > 0 && firstEffect(info, roots, call) {
+			okCtx, generalPos = true, true
+		}
+	}
 	if !okCtx {
 		return edit{}, fmt.Sprintf("call position in %T not handled", stmt)
 	}
@@ -529,6 +563,9 @@ func inlineSite(fset *token.FileSet, info *types.Info, file *ast.File, src []byt
 		}
 	}
 	nres := len(resTypes)
+	if generalPos && nres != 1 {
+		return edit{}, "multi-value or void call inside a larger expression"
+	}
 	switch s := stmt.(type) {
 	case *ast.IfStmt:
 		if containsNode(s.Cond, call) && nres != 1 {
@@ -784,4 +821,77 @@ func mentionsPackage(t ast.Expr) bool {
 		return !f
 	})
 	return f
+}
+
+// firstEffect: among the calls and channel receives the roots evaluate (in evaluation order:
+// operands before the operation, left to right), the first one outside call's own arguments is
+// call itself, and call is not evaluated conditionally (right operand of && / ||) nor inside a
+// function literal.
+func firstEffect(info *types.Info, roots []ast.Node, call *ast.CallExpr) bool {
+	var order []ast.Node
+	cond := false
+	var walk func(n ast.Node, conditional bool)
+	walk = func(n ast.Node, conditional bool) {
+		switch x := n.(type) {
+		case nil:
+			return
+		case *ast.FuncLit:
+			if containsNode(x, call) {
+				cond = true
+			}
+			return
+		case *ast.BinaryExpr:
+			walk(x.X, conditional)
+			walk(x.Y, conditional || x.Op == token.LAND || x.Op == token.LOR)
+			return
+		case *ast.CallExpr:
+			if x == call {
+				if conditional {
+					cond = true
+				}
+				// the receiver expression is evaluated before; the arguments move with the call
+				if sel, ok := ast.Unparen(x.Fun).(*ast.SelectorExpr); ok {
+					walk(sel.X, conditional)
+				}
+				order = append(order, x)
+				return
+			}
+			walk(x.Fun, conditional)
+			for _, a := range x.Args {
+				walk(a, conditional)
+			}
+			if tv, ok := info.Types[x.Fun]; ok && tv.IsType() {
+				return // conversion
+			}
+			if id, ok := ast.Unparen(x.Fun).(*ast.Ident); ok {
+				if _, isB := info.Uses[id].(*types.Builtin); isB && (id.Name == "len" || id.Name == "cap") {
+					return
+				}
+			}
+			order = append(order, x)
+			return
+		case *ast.UnaryExpr:
+			walk(x.X, conditional)
+			if x.Op == token.ARROW {
+				order = append(order, x)
+			}
+			return
+		}
+		// generic descent, left to right
+		var kids []ast.Node
+		ast.Inspect(n, func(m ast.Node) bool {
+			if m == nil || m == n {
+				return true
+			}
+			kids = append(kids, m)
+			return false
+		})
+		for _, k := range kids {
+			walk(k, conditional)
+		}
+	}
+	for _, r := range roots {
+		walk(r, false)
+	}
+	return !cond && len(order) > 0 && order[0] == ast.Node(call)
 }
